@@ -48,6 +48,16 @@ def Src.openR : Src → String → Option Src
   | .path n, enc => some (.opened n enc)
   | _, _ => none
 
+/-- `isinstance(x, str)` (the model's `path` IS a `str`; `int` descriptors / `bytes` names are not modelled separately) -/
+def Src.isStr : Src → Bool
+  | .path _ => true
+  | _ => false
+
+/-- the `str` a `str`-valued `PathOrIO` is (`TypeError` for a stream object where a path is required) -/
+def Src.strName : Src → Option String
+  | .path n => some n
+  | _ => none
+
 /-- `x or y` on an optional `str` (`None` and `""` are false) -/
 def strOr (x : Option String) (y : String) : String :=
   match x with
